@@ -51,7 +51,8 @@ HEAVY = {
     'selfies/decoder.py::_form_rings_bilocally',
     'selfies/mol_graph.py::MolecularGraph.add_ring_bond',
     'selfies/mol_graph.py::MolecularGraph.update_bond_order',
-    'selfies/grammar_rules.py::_process_atom_selfies_no_cache',     # regex / int() string obligations (cvc5, 10-20 s each)
+    'selfies/grammar_rules.py::_process_atom_selfies_no_cache',
+    'selfies/utils/smiles_utils.py::smiles_to_atom',     # regex / int() string obligations (cvc5, 10-20 s each)
 }
 
 
